@@ -390,6 +390,8 @@ func main() {
 		if len(args) > 3 {
 			stride, _ = strconv.Atoi(args[3])
 		}
+		crashMode := len(args) > 4 && args[4] == "crash"
+		points := 0
 		cases, calls := 0, 0
 		shapes := map[string]bool{}
 		want := func(idx int) bool {
@@ -429,6 +431,17 @@ func main() {
 				}
 			}
 			shapes[sh] = true
+			if crashMode {
+				n, ds := crashCase(st, nv, me)
+				points += n
+				for _, d := range ds {
+					vh.Violation(d.Prop+":"+d.What, d.Msg, map[string]interface{}{"engine": "casper-crash", "N": nv, "Me": me, "steps": st, "diverges_at": d.Step, "prop": d.Prop})
+				}
+				if cases%2000 == 5 {
+					vh.Sample(st)
+				}
+				return nil
+			}
 			if d := replay(st, nv, me); d != nil {
 				vh.Violation(d.Prop+":"+st[d.Step].Call.Op+":"+d.What, d.Msg, map[string]interface{}{"engine": "casper", "N": nv, "Me": me, "steps": st, "diverges_at": d.Step, "prop": d.Prop})
 			}
@@ -440,8 +453,13 @@ func main() {
 		if err != nil {
 			vh.Fatal("worker: %v", err)
 		}
-		vh.Summary(map[string]interface{}{"partial": true, "cases": cases, "calls": calls, "distinct": len(shapes)})
+		vh.Summary(map[string]interface{}{"partial": true, "cases": cases, "calls": calls, "distinct": len(shapes), "crash_points": points})
 		return
+	}
+	mode := "replay"
+	if len(os.Args) > 1 && os.Args[1] == "crash" {
+		mode = "crash"
+		os.Args[1] = "replay"
 	}
 	if len(os.Args) < 6 || os.Args[1] != "replay" {
 		vh.Fatal("usage: casper replay <tlc-output> <workers> <N> <Me> [stride]")
@@ -453,15 +471,19 @@ func main() {
 	if len(os.Args) > 6 {
 		stride, _ = strconv.Atoi(os.Args[6])
 	}
-	wargs := []string{os.Args[2], os.Args[4], os.Args[5], strconv.Itoa(stride)}
+	wargs := []string{os.Args[2], os.Args[4], os.Args[5], strconv.Itoa(stride), mode}
 	flaky := vh.RunPool(nw, wargs, func(idx int, tail string) {
 		st := loadCase(os.Args[2], idx*stride+int(vh.Seed())%stride)
 		lastOp := "?"
 		if len(st) > 0 {
 			lastOp = st[len(st)-1].Call.Op
 		}
-		vh.Violation("C12:"+lastOp+":panic", fmt.Sprintf("the node process died during the last call (%s) of the scenario:\n%s", lastOp, tail),
-			map[string]interface{}{"engine": "casper", "N": nv, "Me": me, "steps": st, "diverges_at": len(st) - 1, "prop": "C12"})
+		prop := "C12"
+		if mode == "crash" {
+			prop = "C19"
+		}
+		vh.Violation(prop+":"+lastOp+":panic", fmt.Sprintf("the node process died during the last call (%s) of the scenario (%s mode):\n%s", lastOp, mode, tail),
+			map[string]interface{}{"engine": "casper", "mode": mode, "N": nv, "Me": me, "steps": st, "diverges_at": len(st) - 1, "prop": prop})
 	})
 	vh.Summary(map[string]interface{}{"partial": true, "unreproducible_worker_deaths": flaky})
 }
